@@ -9,7 +9,7 @@ ID = "C14"
 LEVEL = "exploration"
 TIERS = {
     "quick": {"shards": 128, "examples": 30, "det_shards": 2},
-    "thorough": {"shards": 1024, "examples": 80, "det_shards": 8},
+    "thorough": {"shards": 2048, "examples": 80, "det_shards": 8},
 }
 RULE = ("case = (world, variant) as in C13 with pattern sets biased towards emptying directories and with non-default "
         "module_path_separator; non-trivial iff the tree has a subdirectory that is pattern-excluded, auto-excluded or "
